@@ -2,6 +2,7 @@ package worker
 
 import (
 	"fmt"
+	"strings"
 
 	"vsim/plan"
 )
@@ -124,6 +125,18 @@ func genC11(p *plan.Plan, r *plan.Rng, tier string) {
 		addHandleGroups(p, r, &next, 0, 1, 0)
 	case 2:
 		addHandleGroups(p, r, &next, 1, 1, 0)
+	}
+	// the same long object graph encoded again after an encode of it failed
+	// half-way (a value handle shared by two sessions)
+	if r.Chance(1, 5) {
+		depth := []int{40, 900, 1100, 1500}[r.Intn(4)]
+		mk := plan.Step{Op: "val_new", H: "V0", Shared: true, N: depth, V: 1}
+		a := plan.Session{ID: id("v"), Steps: []plan.Step{mk, {Op: "val_marshal", H: "V0", Shared: true, S1: "CBERR"}}}
+		b := plan.Session{ID: id("v"), Steps: []plan.Step{mk, {Op: "val_marshal", H: "V0", Shared: true, S1: "fine"}}}
+		if r.Bool() {
+			b.Steps = append(b.Steps, plan.Step{Op: "val_marshal", H: "V0", Shared: true, S1: "fine", Opts: []string{"nohtml"}})
+		}
+		p.Sessions = append(p.Sessions, a, b)
 	}
 	// option-leak probes: a call with an option, and calls of the same family
 	// without it on arguments for which the option would make a difference
@@ -489,7 +502,14 @@ func genC14(p *plan.Plan, r *plan.Rng, tier string) {
 			if r.Chance(1, 3) {
 				ty = reflectTypeNames[r.Intn(len(reflectTypeNames))]
 			}
-			if r.Bool() {
+			if r.Chance(1, 3) && !strings.HasPrefix(ty, "R") {
+				// the same query text on different types (every generated type has a field F0)
+				h := fmt.Sprintf("q%d", t)
+				if len(s.Steps) == 0 || s.Steps[0].Op != "query_new" {
+					s.Steps = append([]plan.Step{{Op: "query_new", H: h, S1: `["F0"]`}}, s.Steps...)
+				}
+				s.Steps = append(s.Steps, plan.Step{Op: "marshal_ctx", T: ty, V: valueSeed(r, 0, 1), H: h, S1: "c14"})
+			} else if r.Bool() {
 				s.Steps = append(s.Steps, plan.Step{Op: "marshal", T: ty, V: valueSeed(r, 0, 1)})
 			} else {
 				s.Steps = append(s.Steps, plan.Step{Op: "unmarshal", T: ty, Doc: docFor(r, ty, 0, 1)})
